@@ -102,6 +102,13 @@ def local_effects(func, typer):
             if _is_lazy_init(func, n):
                 effects.append(Effect("lazyinit", func, n, "lazy initialisation of %s" % m))
                 continue
+            if cls is not None and cls.name in T.MIXINS and isinstance(n.ctx, ast.Store):
+                from .memo import memo_fields
+                mm = memo_fields(typer.p).get(m)
+                if mm is not None and any(any(t_ is n for t_ in st_.targets) for f_, st_, _ in mm.fills if f_ is func):
+                    # the memo idiom: a private cache of a value computed from the links (its coherence is C04 N8's subject)
+                    effects.append(Effect("lazyinit", func, n, "memo fill of %s" % m))
+                    continue
             # a store that resolves to a structural property setter of a node
             if has_node(rt) and n.attr in ("parent", "children"):
                 effects.append(Effect("structural", func, n, "assignment to .%s of a node" % n.attr))
@@ -184,7 +191,7 @@ def local_effects(func, typer):
         for n in walk_own(func.node):
             if isinstance(n, ast.Attribute) and isinstance(n.ctx, ast.Load):
                 rt = ft.type_of(n.value)
-                if has_node(rt):
+                if rt is not None and "node" in rt:  # may be a node (also when something else is unknown): the getter may run
                     for m in T.MIXINS:
                         c = typer.p.classes.get(m)
                         if c is None:
